@@ -527,3 +527,24 @@ R.dominance(
     exempt_note="arming the idle deadline when there is none is what C09 requires of the first datagram; it cannot postpone termination",
     prop=["C02", "C12", "C09"],
 )
+
+
+# ------------------------------------------------------------------------------------------------ frame fully parsed before a stream lookup (C01, C05)
+# The frame dispatcher ignores StreamFinishedError ("we lack the state for the stream, ignore the frame") and continues
+# parsing the packet payload at the buffer position the handler left.  That is sound only if a handler has consumed its
+# WHOLE frame before the stream lookup that can raise it: otherwise the rest of the frame (peer-chosen stream bytes) is
+# parsed as QUIC frames and a duplicated / late datagram for a forgotten stream closes the connection with a protocol error
+# (C01 sentence 2) or worse.  Decided on the control-flow structure of each handler: no pull from the frame buffer can be
+# executed after _get_or_create_stream may have been called (engine/dominance.py, mode none_after).
+for _h, _n in (("_handle_stream_frame", {"calls:pull_uint_var": 3, "calls:pull_bytes": 1}), ("_handle_reset_stream_frame", {"calls:pull_uint_var": 3}),
+               ("_handle_max_stream_data_frame", {"calls:pull_uint_var": 2}), ("_handle_stop_sending_frame", {"calls:pull_uint_var": 2}),
+               ("_handle_stream_data_blocked_frame", {"calls:pull_uint_var": 2})):
+    R.dominance(
+        "%s.parsed_before_lookup" % _h,
+        function="quic/connection.py::QuicConnection.%s" % _h,
+        mode="none_after",
+        after="calls:_get_or_create_stream",
+        sites=["calls:pull_uint_var", "calls:pull_bytes", "calls:pull_uint8", "calls:pull_uint16", "calls:pull_uint32", "calls:pull_uint64"],
+        expect=_n,
+        prop=["C01", "C05"],
+    )
